@@ -102,7 +102,7 @@ GridG(s) ==
 MkDeclG(s) ==
   LET N == s.N
       d0 == Rhs("R2", N)
-      d1 == [d0 EXCEPT !.method = Method(s.meth, N, s.M, "rk", GridG(s)),
+      d1 == [d0 EXCEPT !.method = IF s.meth = "DC" THEN MethodDC(N, s.M, "radau", 2, GridG(s)) ELSE Method(s.meth, N, s.M, "rk", GridG(s)),
                        !.reads = <<Read("C06.e", "sample", Tm, "control"), Read("C06.e", "sample", Tm, "integrator"),
                                    Read("C06.e", "sample", DTs, "control"), Read("C06.e", "sample", DTc, "control"),
                                    Read("C06.e", "sample", DTs, "integrator"), Read("C06.e", "sample", DTc, "integrator"),
@@ -387,17 +387,20 @@ Space ==
                  seed : {Seed}, cons : {<<>>}, obj : ObjSets] : Wellformed(s)}
 
 SpaceG ==
-  {s \in [meth : {"MS", "SS"}, N : 1..(IF Thorough THEN 6 ELSE 3), M : 1..(IF Thorough THEN 4 ELSE 2), grid : {"uni", "geo", "geoL", "fun", "free"},
+  {s \in [meth : {"MS", "SS", "DC"}, N : 1..(IF Thorough THEN 6 ELSE 3), M : 1..(IF Thorough THEN 4 ELSE 2), grid : {"uni", "geo", "geoL", "fun", "free"},
            lt0 : BOOLEAN, lT : BOOLEAN, bnd : {"none", "minlo", "minhi", "maxhi", "maxlo"},
            hz : {"num", "fT", "fb"}, pert : 0..12, seed : {Seed}, cons : {<<>>}, obj : {<<>>}] :
        /\ (s.grid \in {"fun", "free"} => ~s.lt0 /\ ~s.lT)      \* FunctionGrid cannot be localized; FreeGrid is localized by construction
        /\ s.pert <= NGridVars(s)
        /\ (s.bnd # "none" => s.hz # "num" \/ s.grid = "free")    \* bounds need a variable to act on
-       /\ (s.hz = "num" => s.seed = Seed)}
+       /\ (s.hz = "num" => s.seed = Seed)
+       \* DirectCollocation shares the grid code with the shooting methods: a thinner slice (time rows of the collocation
+       \* points hang on the same grid variables)
+       /\ (s.meth = "DC" => s.N <= 3 /\ s.M <= 2 /\ s.bnd \in {"none", "minhi", "maxlo"} /\ s.pert <= 3)}
 
 Code(s) == s.N + 3 * s.M + s.seed + Len(s.cons) + Len(s.obj)
            + (CASE s.grid = "uni" -> 0 [] s.grid = "geo" -> 1 [] s.grid = "geoL" -> 2 [] s.grid = "fun" -> 3 [] OTHER -> 4)
-           + (CASE s.meth = "MS" -> 0 [] OTHER -> 5)
+           + (CASE s.meth = "MS" -> 0 [] s.meth = "DC" -> 9 [] OTHER -> 5)
 
 Init == sc \in {s \in (CASE Family = "C06" -> SpaceG [] Family = "C07" -> SpaceS [] IsX -> SpaceX [] Family = "C08" -> SpaceR [] Family = "C15" -> SpaceInf [] OTHER -> Space) : Code(s) % Parts = Part}
 Next == UNCHANGED sc
